@@ -13,6 +13,7 @@
  *   pen: pen=N (NULL) | pen=fg:bg:b with each field an integer or x (absent)
  *   instr: P | E:t:l:n:k | T:l:c:hex | C:l:c:cp | S:t:l:n:k | K | N:bg:b | X:d:r | L:t:l:n:k
  *          | e:dt:dl:dn:dk | t:dl:dc:hex | c:dl:dc:cp | s:dt:dl:dn:dk      (lower case: relative to the handed rectangle)
+ *          | Z:id | Z:id:t:l:n:k | z:dt:dl:dn:dk     tickit_window_expose from inside the handler (z: own window, relative)
  *
  * Observation (one line per operation):  r=<ret> T=<tree> E=<expose events> G=<grid or ->
  *   tree:   id,parent,top,left,lines,cols,visible,children(dot separated or -) joined by |   (closed window: id,x)
@@ -167,6 +168,24 @@ static void run_prog(int id, const char *prog, const TickitRect *rect, TickitRen
         break;
       case 'X':
         if(nf == 3) tickit_renderbuffer_translate(rb, atoi(f[1]), atoi(f[2]));
+        break;
+      case 'Z':   /* tickit_window_expose from inside the handler */
+        if(nf == 2 || nf == 6) {
+          int target = atoi(f[1]);
+          if(target >= 0 && target < nwins && !closedw[target]) {
+            if(nf == 2) tickit_window_expose(wins[target], NULL);
+            else {
+              TickitRect r = { .top = atoi(f[2]), .left = atoi(f[3]), .lines = atoi(f[4]), .cols = atoi(f[5]) };
+              tickit_window_expose(wins[target], &r);
+            }
+          }
+        }
+        break;
+      case 'z':
+        if(nf == 5) {
+          TickitRect r = { .top = bt + atoi(f[1]), .left = bl + atoi(f[2]), .lines = bn + atoi(f[3]), .cols = bk + atoi(f[4]) };
+          tickit_window_expose(wins[id], &r);
+        }
         break;
       default: break;
     }
